@@ -19,11 +19,11 @@ def modules(A, B):
     L.append(progs.GD_ITEMS)
     L.append(" forward " + ", ".join(f["name"] for f in fa[1:]))
     L.append(progs.RT_ITEMS)
-    L.append(" export gdat, gd, rt, " + ", ".join(f["name"] for f in fa[1:]))
+    L.append(" export gdat, gd, gq, rt, " + ", ".join(f["name"] for f in fa[1:]))
     for i, f in list(enumerate(fa))[1:]:
         L.append(progs.render_func(i, f, protos))
     L.append(" endmodule")
-    L += ["m2: module", " import ext_i, ext_cb, gdat, gd, rt, " + ", ".join(f["name"] for f in fa[1:]),
+    L += ["m2: module", " import ext_i, ext_cb, gdat, gd, gq, rt, " + ", ".join(f["name"] for f in fa[1:]),
           "p_ext: proto i64, i64:id, i64:v", "p_cb: proto i64, i64:id, p:f, i64:v"]
     for f in fa[1:]:
         L.append(progs.proto_line(f))
